@@ -169,7 +169,11 @@ func hostileBytes(fs []hostileFrame) []byte {
 }
 
 // hostileManager has TLC enumerate frame sequences and runs them against real endpoints in a sub-process.
-func hostileManager(c *vf.Ctx) {
+func hostileManager(c *vf.Ctx) { hostileManagerWith(c, nil) }
+
+// hostileManagerWith runs the Hostile.tla sequences; onHang (if not nil) is told about every sequence after which an
+// endpoint neither finished serving nor could be closed, with the drpc frames its goroutines are parked in.
+func hostileManagerWith(c *vf.Ctx, onHang func(frames []hostileFrame, where string)) {
 	var seqs [][]hostileFrame
 	seen := map[string]bool{}
 	collect := func(b []byte) {
@@ -221,7 +225,8 @@ func hostileManager(c *vf.Ctx) {
 	self, _ := os.Executable()
 	start := 0
 	crashes := 0
-	for start < len(seqs) && crashes < 5 {
+	hangs := 0
+	for start < len(seqs) && crashes < 5 && hangs < 6 {
 		cmd := exec.Command(self, "sub", "hostile", f.Name(), fmt.Sprint(start))
 		out, _ := cmd.StdoutPipe()
 		var stderr strings.Builder
@@ -239,8 +244,17 @@ func hostileManager(c *vf.Ctx) {
 				last = i
 				c.Eval(fmt.Sprintf("hostile:%d", i))
 				c.TraceValidated(1)
-				if what == "hang" {
-					c.Warn("hostile sequence %d: endpoint neither served nor closed within the bound (not a C13 verdict)", i)
+				if strings.HasPrefix(what, "hang") {
+					where := strings.TrimPrefix(sc.Text(), fmt.Sprintf("case %d hang", i))
+					hangs++
+					if onHang != nil {
+						onHang(seqs[i], strings.TrimSpace(where))
+						if hangs >= 6 {
+							_ = cmd.Process.Kill()
+						}
+					} else {
+						c.Warn("hostile sequence %d: endpoint neither served nor closed within the bound (not a C13 verdict) %s", i, where)
+					}
 				}
 			}
 		}
@@ -306,8 +320,14 @@ func subHostile(args []string) int {
 			select {
 			case <-done:
 			case <-time.After(1500 * time.Millisecond):
-				status = "hang"
+				if w := stableParked(); w != "" {
+					status = "hang server:ServeOne does not return after the peer closed [" + w + "]"
+				}
 				sp.Fail()
+				select {
+				case <-done:
+				case <-time.After(2 * time.Second):
+				}
 			}
 		}
 		// client endpoint with one call in flight
@@ -332,12 +352,44 @@ func subHostile(args []string) int {
 			select {
 			case <-cdone:
 			case <-time.After(5 * time.Second):
-				status = "hang"
+				if w := stableParked(); w != "" {
+					status = "hang client:Conn.Close does not return [" + w + "]"
+				}
 			}
 		}
 		fmt.Printf("case %d %s\n", i, status)
 	}
 	return 0
+}
+
+// stableParked returns the drpc frames goroutines are parked in if two censuses 300 ms apart agree and nothing
+// with a drpc frame is runnable; "" otherwise (slow, not hung).
+func stableParked() string {
+	snap := func() (string, bool) {
+		var w []string
+		for _, g := range vf.Census() {
+			fr := g.Innermost("storj.io/drpc/")
+			if fr == "" {
+				continue
+			}
+			if !g.Blocked() {
+				return "", false
+			}
+			w = append(w, fr[strings.LastIndex(fr, "/")+1:])
+		}
+		sortStrings(w)
+		return strings.Join(w, " "), true
+	}
+	a, ok := snap()
+	if !ok || a == "" {
+		return ""
+	}
+	time.Sleep(300 * time.Millisecond)
+	b, ok := snap()
+	if !ok || a != b {
+		return ""
+	}
+	return a
 }
 
 var _ = io.EOF
